@@ -54,39 +54,32 @@ def lexer(raw: str) -> _LEX_STREAM:
     :param raw: The raw cfg() expression
     :return: An iterable of tokens
     """
-    start: int = 0
-    is_string: bool = False
-    for i, s in enumerate(raw):
-        if s.isspace() or s in {')', '(', ',', '=', '"'}:
+    simple = {'(': TokenType.LPAREN, ')': TokenType.RPAREN, ',': TokenType.COMMA, '=': TokenType.EQUAL}
+    keywords = {'any': TokenType.ANY, 'all': TokenType.ALL, 'not': TokenType.NOT}
+    i = 0
+    while i < len(raw):
+        s = raw[i]
+        if s.isspace():
+            i += 1
+        elif s in simple:
+            yield (simple[s], None)
+            i += 1
+        elif s == '"':
+            # A string literal is atomic: delimiters and blanks inside it are content.
+            end = raw.find('"', i + 1)
+            if end < 0:
+                raise MesonException('unterminated string in cfg expression')
+            yield (TokenType.STRING, raw[i + 1:end])
+            i = end + 1
+        else:
+            start = i
+            while i < len(raw) and not raw[i].isspace() and raw[i] not in '(),="':
+                i += 1
             val = raw[start:i]
-            start = i + 1
-            if s == '"' and is_string:
-                yield (TokenType.STRING, val)
-                is_string = False
-                continue
-            elif val == 'any':
-                yield (TokenType.ANY, None)
-            elif val == 'all':
-                yield (TokenType.ALL, None)
-            elif val == 'not':
-                yield (TokenType.NOT, None)
-            elif val:
+            if val in keywords:
+                yield (keywords[val], None)
+            else:
                 yield (TokenType.IDENTIFIER, val)
-
-            if s == '(':
-                yield (TokenType.LPAREN, None)
-            elif s == ')':
-                yield (TokenType.RPAREN, None)
-            elif s == ',':
-                yield (TokenType.COMMA, None)
-            elif s == '=':
-                yield (TokenType.EQUAL, None)
-            elif s == '"':
-                is_string = True
-    val = raw[start:]
-    if val:
-        # This should always be an identifier
-        yield (TokenType.IDENTIFIER, val)
 
 
 @dataclasses.dataclass
